@@ -3,6 +3,7 @@ import DriverLib.C04
 import QV.Model.States
 import QV.Model.Unitaries
 import QV.Model.Metrics
+import DriverLib.CallForm
 open Lean Drv QV QV.Metrics
 
 namespace Drv.C10
@@ -161,6 +162,22 @@ def logit (j : Json) : R Json := do
   let xs ← jFloatArr (← fld j "xs")
   return fArrOut (xs.map (probsToLogits eps))
 
+/-- op `c10.alias_call`: in: `kl` (false: `fidelity`, true: `KL`), `pos` = positional arguments in call order, `kw` = [[name, value]…]
+(values `null` | `{"ref": n}`). out: `{"bound": {parameter: value}}` as the undecorated function receives them
+(`QV.CallForm.metricBind`: `deprecated_kwarg.rename`, then Python's binding) | `{"error": …}`; plus the alias table. -/
+def aliasCallOp (j : Json) : R Json := do
+  let isKL ← jBool (← fld j "kl")
+  let pos ← (← jArr (← fld j "pos")).toList.mapM Drv.CallForm.jArg
+  let kw ← (← jArr (← fld j "kw")).toList.mapM fun e => do
+    let a ← jArr e
+    return ((← jStr a[0]!), (← Drv.CallForm.jArg a[1]!))
+  let table := Json.arr (QV.CallForm.metricAliases.toArray.map fun e => .arr #[.str e.1, .str e.2])
+  let params := Json.arr ((QV.CallForm.metricParams isKL).toArray.map .str)
+  match QV.CallForm.metricBind isKL pos kw with
+  | .error e => return Json.mkObj [("error", .str e.toString), ("aliases", table), ("params", params)]
+  | .ok r => return Json.mkObj [("bound", Json.mkObj (r.map fun e => (e.1, Drv.CallForm.argOut e.2))),
+      ("aliases", table), ("params", params)]
+
 def handle (op : String) (j : Json) : Option (R Json) :=
   match op with
   | "c10.fidelity" => some (fidelity j)
@@ -168,6 +185,7 @@ def handle (op : String) (j : Json) : Option (R Json) :=
   | "c10.nll" => some (nll j)
   | "c10.state" => some (state j)
   | "c10.logit" => some (logit j)
+  | "c10.alias_call" => some (aliasCallOp j)
   | _ => none
 
 end Drv.C10
